@@ -130,12 +130,14 @@ def _op(kind):
         return st.fixed_dictionaries({"op": st.just("splitUniform"), "depth": _sel, "step": st.integers(1, 3)})
     if kind == "splitEqual":
         return st.fixed_dictionaries({"op": st.just("splitEqual"), "depth": _sel, "size": st.integers(1, 3)})
+    if kind == "swap":
+        return st.fixed_dictionaries({"op": st.just("swap"), "depth": _sel})
     raise ValueError(kind)
 
 
 CHAINS = [["flatten"], [], ["swizzle", "flatten"], ["swizzle"], ["splitUniform", "flatten"], ["splitUniform"],
           ["flatten"], ["splitEqual"], ["swizzle", "flatten"], ["swizzle", "splitEqual"], ["flatten"],
-          ["splitEqual", "flatten"]]
+          ["splitEqual", "flatten"], ["flatten", "flatten"], ["flatten", "swap"], ["flatten", "flatten"]]
 
 
 @st.composite
@@ -488,9 +490,19 @@ def apply_op(t, op, rec):
         levels = 1 + op["levels"] % (n - 1 - depth)
         if levels > 1 and op["style"] == "linear":
             levels = 1
-        rec.cls(f"flatten-{op['style']}")
+        style = op["style"]
+        if any(not isinstance(i, str) for i in t.getRankIds()):
+            # a rank that already has tuple coordinates cannot be linearised; tuple / pair nest or concatenate
+            style = "pair" if style == "linear" else style
+            rec.cls("flatten-of-flattened")
+        rec.cls(f"flatten-{style}")
         rec.cls("flatten-multi-level", levels > 1)
-        return t.flattenRanks(depth=depth, levels=levels, coord_style=op["style"])
+        return t.flattenRanks(depth=depth, levels=levels, coord_style=style)
+    if kind == "swap":
+        if n < 2:
+            rec.cls("op-not-applicable")
+            return t
+        return t.swapRanks(depth=op["depth"] % (n - 1))
     if kind == "splitUniform":
         return t.splitUniform(op["step"], depth=op["depth"] % n)
     if kind == "splitEqual":
